@@ -200,7 +200,7 @@ func mutateLex(r *hx.Rng, lex []string) []string {
 const bom = "\ufeff"
 
 // 1/n of the inputs of a stream go through Linter.Lint as well
-var lintMods = map[string]uint32{"corpus": 1, "strings": 400, "tokens": 100, "random": 20, "mutant": 20, "ascii": 20}
+var lintMods = map[string]uint32{"corpus": 1, "strings": 400, "tokens": 100, "random": 20, "mutant": 20, "ascii": 20, "raw": 40, "open": 1}
 
 type failure struct {
 	What  string `json:"what"`
@@ -451,17 +451,21 @@ func (w *worker) process(in input, seed uint64, sampleMod uint32) {
 		w.dist["oracle_failure"]++
 	}
 	// Linter-level oracle on a deterministic subset (all corpus inputs, ~1/lintMod of the others)
-	if lm := lintMods[in.kind]; lm > 0 && embeddable(src) {
+	closed := embeddable(src)
+	if lm := lintMods[in.kind]; lm > 0 && (closed || embeddableOpen(src)) {
 		h := fnv.New32a()
 		fmt.Fprintf(h, "lint|%d|%s", seed, src)
 		if h.Sum32()%lm == 0 {
 			w.linted++
 			lr := lintOracle(w.linter, src, ir)
-			if lr.ok && h.Sum32()%(lm*3) == 0 && ir.err != nil == !ir.accepted && (ir.accepted || ir.err.Line == 1) {
+			if !closed {
+				w.dist["linted_unterminated"]++
+			}
+			if lr.ok && closed && h.Sum32()%(lm*3) == 0 && ir.err != nil == !ir.accepted && (ir.accepted || ir.err.Line == 1) {
 				w.dist["linted_at_other_sites"]++
 				lr = siteOracle(w.linter, src, ir)
 			}
-			if lr.ok {
+			if lr.ok && closed {
 				if _, ok := ifEmbeddable(src); ok {
 					w.dist["linted_as_if_condition"]++
 					lr = ifOracle(w.linter, src, ir)
@@ -586,9 +590,9 @@ func main() {
 	chans := make([]chan []input, *workers)
 	var wg sync.WaitGroup
 	// expected sample sizes ~120 per stream
-	sampleMods := map[string]uint32{"strings": 5000, "raw": 400, "tokens": 1700, "random": 160, "mutant": 330, "corpus": 1, "ascii": 150}
+	sampleMods := map[string]uint32{"open": 1, "strings": 5000, "raw": 400, "tokens": 1700, "random": 160, "mutant": 330, "corpus": 1, "ascii": 150}
 	if *tier == "thorough" {
-		sampleMods = map[string]uint32{"strings": 140000, "raw": 11000, "tokens": 34000, "random": 160 * 8, "mutant": 330 * 8, "corpus": 1, "ascii": 150}
+		sampleMods = map[string]uint32{"open": 1, "strings": 140000, "raw": 11000, "tokens": 34000, "random": 160 * 8, "mutant": 330 * 8, "corpus": 1, "ascii": 150}
 	}
 	for i := range ws {
 		ws[i] = startWorker(*model)
@@ -624,6 +628,18 @@ func main() {
 	for _, s := range []string{"1e+5", "1E+5", "1e05", "0e00", "0x0a", "0x00", "2147483648", "-2147483649", "1e999", "a.1", "f(a,)", "0123", "1.", "1.a", "a b $", "a $", "TRUE", "true", "a && b || c", "a || b && c", "!a == b", "a < b < c", "a.b.*[0].c", "f()", "f(1, 'x', g(h))", "(a)", "((a)", "a[", "a.*.b", "-", "--1", "0x", "0x1g", "'it''s'", "'abc", "\"s\"", "a\tb", "1e+", "1e+5x", "a }} b"} {
 		emit(input{s + "}}", "corpus"})
 		emit(input{" " + s + " }}", "corpus"})
+	}
+	// placeholders that are never closed
+	for _, s := range []string{"", " a", " github.sha", " a.b", " a }", " f(a", " 'abc", " a &&", " a } }", " a.b.*", " (a)", "a", " 1e+5", " a == 'x'"} {
+		emit(input{s, "open"})
+	}
+	// deep nesting of parentheses, calls and index brackets (no bound on the depth)
+	for _, d := range []int{8, 16, 24, 31, 32, 33, 48, 64, 100, 200} {
+		emit(input{strings.Repeat("(", d) + "a" + strings.Repeat(")", d) + "}}", "corpus"})
+		emit(input{strings.Repeat("f(", d) + "a" + strings.Repeat(")", d) + "}}", "corpus"})
+		emit(input{"a" + strings.Repeat("[a", d) + strings.Repeat("]", d) + "}}", "corpus"})
+		emit(input{strings.Repeat("!(", d) + "a" + strings.Repeat(")", d) + " }}", "corpus"})
+		emit(input{strings.Repeat("(", d) + "a" + strings.Repeat(")", d-1) + "}}", "corpus"})
 	}
 	// white space only, and white space around the smallest sentences (as an if: condition these
 	// are written as quoted scalars)
